@@ -119,7 +119,29 @@ fn shape_of(text: &str) -> String {
 // SEM: a semantic summary of every impl: header facts + the structure of the method body
 // (lets, assignments, the result expression as struct literal / constructor call / tuple / match).
 fn ns(t: &impl ToTokens) -> String {
-    t.to_token_stream().to_string().replace(' ', "")
+    // the token text without spacing - but literals verbatim: blanks inside a string / char literal are part of its value
+    fn go(ts: proc_macro2::TokenStream, out: &mut String) {
+        for tt in ts {
+            match tt {
+                proc_macro2::TokenTree::Group(g) => {
+                    let (o, c) = match g.delimiter() {
+                        proc_macro2::Delimiter::Parenthesis => ("(", ")"),
+                        proc_macro2::Delimiter::Brace => ("{", "}"),
+                        proc_macro2::Delimiter::Bracket => ("[", "]"),
+                        proc_macro2::Delimiter::None => ("", ""),
+                    };
+                    out.push_str(o);
+                    go(g.stream(), out);
+                    out.push_str(c);
+                }
+                proc_macro2::TokenTree::Literal(l) => out.push_str(&l.to_string()),
+                other => out.push_str(&other.to_string().replace(' ', "")),
+            }
+        }
+    }
+    let mut out = String::new();
+    go(t.to_token_stream(), &mut out);
+    out
 }
 
 fn sem_expr(e: &syn::Expr, out: &mut String) {
